@@ -35,10 +35,11 @@ class AbstractReader(object):
             filenames.append(mibname.lower())
 
         if self.fuzzyMatching:
-            part = filenames[-1].find('-mib')
-            if part != -1:
+            # the -MIB suffix is either removed or added, whatever the
+            # letter case matching options are
+            if mibname.lower().endswith('-mib'):
                 filenames.extend(
-                    [x[:part] for x in filenames]
+                    [x[:-4] for x in filenames]
                 )
             else:
                 suffixed = mibname + '-mib'
